@@ -231,6 +231,7 @@ static void graphChain(long n, bool comb, int threads) {
     }
     prev = &nd;
   }
+  dispenso::setAllNodesIncomplete(g);
   dispenso::ConcurrentTaskSet tasks(pool);
   dispenso::ConcurrentTaskSetExecutor exec;
   exec(tasks, g);
